@@ -18,7 +18,8 @@ RULE = ("A registry of public functions and methods, each called on generated ar
         "table methods (indexing, concatenate, sort_by, replace, add_fields, tolist, todict, topandas), and field access on lazily read chunks of "
         "every text format and every field (BED12 lists, typed VCF INFO, genotype matrices, narrowPeak floats, signed integers) in a generated "
         "order, on the chunk and on slices of it. Arguments are passed both as freshly built arrays and as views into a larger buffer. "
-        "Oracle: a deep snapshot of every argument (and of the buffer a view was taken from) before the call equals the snapshot after it; "
+        "Oracle: a deep snapshot of every argument (and of the buffer a view was taken from) before the call equals the snapshot after it "
+        "(in half of the cases the 'before' snapshot is taken from an identical second construction, so the argument handed to the call has never been read or flattened); "
         "calling again with the same arguments gives an equal result; for a lazily read chunk the bytes written (unmodified, and column-wise "
         "through a replaced field) before any field access equal those written after every field has been accessed. "
         "Non-trivial: the call takes one of the in-place paths: signed numbers, scientific floats, list-valued or genotype columns, merge "
@@ -27,7 +28,7 @@ ASSUMPTIONS = [
     "Functions whose documented job is assignment (__setitem__, attribute assignment) are not in the registry.",
     "The registry is finite and hand-built from the public API; a function missing from it is not checked. The evidence lists calls per entry.",
 ]
-REQUIRED_CLASSES = ["view-argument", "signed-numbers", "scientific-floats", "list-valued-column", "genotype-column", "merge-distance>0", "typed-info",
+REQUIRED_CLASSES = ["view-argument", "never-read-argument", "signed-numbers", "scientific-floats", "list-valued-column", "genotype-column", "merge-distance>0", "typed-info",
                     "lazy-chunk", "strops", "intervals", "sequence", "encoding", "genomic", "table"]
 BOUNDS = {"quick": "60 calls per registry entry (62 entries) plus 120 lazily read chunks per format (12 formats)", "thorough": "1500 calls per entry, 2500 chunks per format"}
 BUDGET_S = {"quick": 200, "thorough": 1500}
@@ -397,6 +398,8 @@ def classify(case):
         if case["view"]:
             cl.append("view-argument")
             nontrivial = True
+        if case.get("untouched"):
+            cl.append("never-read-argument")
         if case["entry"].startswith("str_to_int") and any(t[:1] in "+-" for t in case["int_texts"]):
             cl.append("signed-numbers")
             nontrivial = True
@@ -428,7 +431,16 @@ def check_call(case, stats):
         args, thunk = builder(case)
     except Exception as e:
         return [Failure(f"C20:argument-construction-raised:{case['entry']}:{type(e).__name__}", {"error": repr(e)[:300]})]
-    before = snap(args)
+    if case.get("untouched"):
+        # taking a snapshot reads (and may flatten or cache) the argument. In this mode the arguments handed to the call have never been
+        # read: the 'before' snapshot comes from an identical second construction of the same arguments.
+        try:
+            twin_args, _ = builder(case)
+        except Exception as e:
+            return [Failure(f"C20:argument-construction-raised:{case['entry']}:{type(e).__name__}", {"error": repr(e)[:300]})]
+        before = snap(twin_args)
+    else:
+        before = snap(args)
     try:
         r1 = snap(thunk())
     except Exception as e:
@@ -530,7 +542,7 @@ def call_case(draw, entry):
     def iv():
         a = draw(st.integers(0, S_ - 1))
         return [a, draw(st.one_of(st.integers(a + 1, S_), st.just(S_)))]
-    return {"kind": "call", "entry": entry, "view": draw(st.booleans()), "S": S_, "d": draw(st.integers(0, 5)), "k": draw(st.integers(1, 5)),
+    return {"kind": "call", "entry": entry, "view": draw(st.booleans()), "untouched": draw(st.booleans()), "S": S_, "d": draw(st.integers(0, 5)), "k": draw(st.integers(1, 5)),
             "int_texts": draw(st.lists(S.int_text(8, canonical=False), min_size=1, max_size=6)),
             "float_texts": draw(st.lists(S.float_text(canonical=False), min_size=1, max_size=6)),
             "ints": draw(st.lists(st.integers(-10 ** 12, 10 ** 12), min_size=1, max_size=6)),
